@@ -925,10 +925,9 @@ theorem integ_recover_guards (H : Body → String) (s : State) (now : Int) (name
   have h4 := Guards_foldl (G := IG H) (fun _ => True) stepV vals
     (by
       intro acc x _ _
-      refine ⟨toCache acc.1.mem x.1 (Entry.ofCmp x.2 .received) .received now ++
-        processCore H (run acc.1 (toCache acc.1.mem x.1 (Entry.ofCmp x.2 .received) .received now))
-          x.1 { Entry.ofCmp x.2 .received with time := now } now, ?_, ?_, trivial⟩
-      · simp only [stepV, run_append, List.append_assoc]
+      refine ⟨recoverValOne H acc.1 now x, rfl, ?_, trivial⟩
+      rcases recoverValOne_cases H acc.1 now x with ⟨_, h⟩ | ⟨_, h⟩ <;> rw [h]
+      · exact Guards_of_all_easy H _ _ (by simp [easy])
       · apply Guards.append
         · exact Guards_of_all_easy H _ _ (toCache_easy _ _ _ _ _ (by decide))
         · exact processCore_guards H _ _ _ _ _ rfl rfl)
